@@ -140,6 +140,15 @@ func C12(c *core.Ctx) {
 		if asBool(cs["anchored"]) {
 			want = R + want
 		}
+		// the home directory is looked up at every load: it alternates between two users from case to case
+		home := "/home/verifuser"
+		if n%2 == 0 {
+			home = "/home/otheruser"
+			if class == "home" {
+				want = strings.Replace(want, "/home/verifuser", home, 1)
+			}
+		}
+		os.Setenv("HOME", home)
 		if row == "label_file" {
 			_ = os.MkdirAll(filepath.Dir(want), 0o755)
 			_ = os.WriteFile(want, []byte("l=1\n"), 0o644)
